@@ -401,6 +401,17 @@ func (b *BlockWise[C]) handleReceivedMessage(w *responsewriter.ResponseWriter[C]
 			startSendingMessageBlock = block
 		}
 	case codes.POST, codes.PUT:
+		if !r.HasOption(message.Block1) {
+			if block2, errB := r.GetOptionUint32(message.Block2); errB == nil {
+				if _, num, _, errD := DecodeBlockOption(block2); errD == nil && num > 0 {
+					// A request for a later block of the response to a POST/PUT whose response is
+					// not (or no longer) stored, e.g. a second request for the last block. The
+					// request is not idempotent, so it must not be handed to the application again
+					// just to regenerate the response.
+					return fmt.Errorf("cannot continue sending response to message(%v): no response is stored for the token", r)
+				}
+			}
+		}
 		maxSZX = fitSZX(r, message.Block1, maxSZX)
 		errP := b.processReceivedMessage(w, r, maxSZX, next, message.Block1, message.Size1)
 		if errP != nil {
